@@ -155,6 +155,12 @@ class Token:
     def __repr__(self):
         return f"<{self.name}>"
 
+    def __deepcopy__(self, memo):  # opaque values stand for immutable atoms (types, names)
+        return self
+
+    def __copy__(self):
+        return self
+
 
 class RecipeLoader:
     def __init__(self, native_classes=None):
